@@ -1,17 +1,544 @@
-//! module `scale` — streams `scale.*` (not built yet).
+//! module `scale` — C08: rendering is total and allocation-free on display-scale inputs.
+//!
+//!   scale.shape <shape> <style>                  every query + draw of a styled primitive
+//!   scale.text <font 0..3|null> <baseline> <align> <lh kind> <lh value> <colours mask> x y <codepoints>
+//!   scale.image <bits> <order> w h x y sx sy sw sh tx ty tw th     image, sub-image, nested sub-image, pixel()
+//!   scale.reject <kind> ...                      out-of-range coordinates / indices are rejected without a panic
+//!
+//! Every call into the library happens with pre-built arguments, on non-allocating counting
+//! targets, with the allocation counter armed; the harness is compiled with overflow checks and
+//! debug assertions. Oracle: no panic (a panic is reported by main.rs with its site as class),
+//! 0 allocations, iteration budgets not exceeded (termination).
 use crate::common::*;
+use crate::shapes::*;
+use crate::with_shape;
+use embedded_graphics::{
+    framebuffer::{buffer_size, Framebuffer},
+    image::{GetPixel, Image, ImageRaw},
+    mono_font::{ascii, iso_8859_1, MonoTextStyleBuilder},
+    pixelcolor::{
+        raw::{BigEndianLsb0, LittleEndianMsb0, RawData, RawU1, RawU16, RawU2, RawU24, RawU32, RawU4, RawU8},
+        BinaryColor, Gray2, Gray4, Gray8, Rgb565, Rgb888,
+    },
+    prelude::*,
+    primitives::{ContainsPoint, Rectangle, Styled},
+    text::{Alignment, Baseline, LineHeight, Text, TextStyleBuilder},
+};
 
 pub struct M;
+
+/// Non-allocating target: counts pixels, enforces a budget (termination), optional native fills.
+struct Null<C> {
+    bbox: Rectangle,
+    n: u64,
+    budget: u64,
+    over: bool,
+    native: bool,
+    _c: core::marker::PhantomData<C>,
+}
+impl<C> Null<C> {
+    fn new(bbox: Rectangle, native: bool) -> Self {
+        Null { bbox, n: 0, budget: 40_000_000, over: false, native, _c: Default::default() }
+    }
+}
+impl<C> Dimensions for Null<C> {
+    fn bounding_box(&self) -> Rectangle {
+        self.bbox
+    }
+}
+impl<C: PixelColor> DrawTarget for Null<C> {
+    type Color = C;
+    type Error = core::convert::Infallible;
+    fn draw_iter<I: IntoIterator<Item = Pixel<C>>>(&mut self, pixels: I) -> Result<(), Self::Error> {
+        for _ in pixels {
+            self.n += 1;
+            if self.n > self.budget {
+                self.over = true;
+                break;
+            }
+        }
+        Ok(())
+    }
+    fn fill_contiguous<I: IntoIterator<Item = C>>(&mut self, area: &Rectangle, colors: I) -> Result<(), Self::Error> {
+        if self.native {
+            for _ in colors {
+                self.n += 1;
+                if self.n > self.budget {
+                    self.over = true;
+                    break;
+                }
+            }
+            Ok(())
+        } else {
+            self.draw_iter(area.points().zip(colors).map(|(p, c)| Pixel(p, c)))
+        }
+    }
+    fn fill_solid(&mut self, area: &Rectangle, color: C) -> Result<(), Self::Error> {
+        if self.native {
+            self.n += area.size.width as u64 * area.size.height as u64;
+            Ok(())
+        } else {
+            self.fill_contiguous(area, core::iter::repeat(color))
+        }
+    }
+}
+
+const BIASED: [i64; 16] = [0, 1, 2, 3, 63, 64, 65, 240, 255, 256, 257, 320, 480, 1000, 1023, 1024];
+const WIDTHS: [i64; 8] = [0, 1, 2, 3, 5, 64, 127, 128];
+
+fn biased(rng: &mut Rng) -> i64 {
+    if rng.chance(3, 4) {
+        *rng.pick(&BIASED)
+    } else {
+        rng.range(0, 1024)
+    }
+}
+fn coord(rng: &mut Rng) -> i64 {
+    let v = biased(rng);
+    if rng.chance(1, 2) {
+        -v
+    } else {
+        v
+    }
+}
+
+fn scale_shape(rng: &mut Rng) -> String {
+    let (x, y) = (coord(rng), coord(rng));
+    // keep top_left + size inside the +-1024 coordinate domain where the property says so
+    let sz = |rng: &mut Rng| biased(rng);
+    match rng.below(9) {
+        0 => format!("rect {} {} {} {}", x, y, sz(rng), sz(rng)),
+        1 => format!("circle {} {} {}", x, y, sz(rng)),
+        2 => format!("ellipse {} {} {} {}", x, y, sz(rng), sz(rng)),
+        3 => {
+            let mut s = format!("rrect {} {} {} {}", x, y, sz(rng), sz(rng));
+            for _ in 0..4 {
+                s.push_str(&format!(" {} {}", sz(rng), sz(rng)));
+            }
+            s
+        }
+        4 => format!("tri {} {} {} {} {} {}", x, y, coord(rng), coord(rng), coord(rng), coord(rng)),
+        5 => format!("line {} {} {} {}", x, y, coord(rng), coord(rng)),
+        6 => {
+            let n = rng.range(0, 5);
+            let mut s = format!("poly 0 0 {}", n);
+            let mut last = (x, y);
+            for _ in 0..n {
+                if !rng.chance(1, 6) {
+                    last = (coord(rng), coord(rng));
+                }
+                s.push_str(&format!(" {} {}", last.0, last.1));
+            }
+            s
+        }
+        7 => format!("arc {} {} {} {} {}", x, y, sz(rng), rng.range(-720, 720) * 1000, rng.range(-720, 720) * 1000),
+        _ => format!("sector {} {} {} {} {}", x, y, sz(rng), rng.range(-720, 720) * 1000, rng.range(-720, 720) * 1000),
+    }
+}
 
 impl Module for M {
     fn name(&self) -> &'static str {
         "scale"
     }
     fn rule(&self) -> &'static str {
-        "not built yet"
+        "display-scale domain (|coord| <= 1024, sizes <= 1024, stroke widths 0..=128, line heights <= 1024 px / 400 %), values biased to \
+         {0,1,2,3,63,64,65,240,255,256,257,320,480,1000,1023,1024}; degenerate objects (zero sizes, coincident vertices, empty polylines, \
+         empty strings and images, null font); rejection ops with out-of-range coordinates / indices. Every op runs all constructors, queries \
+         and draw() under an armed allocation counter, overflow checks and debug assertions. Non-trivial: the op iterated at least one pixel or point; distinct = op text."
     }
-    fn generate(&self, _pid: &str, _tier: Tier, _rng: &mut Rng, _emit: &mut dyn FnMut(String)) {}
-    fn execute(&self, op: &str, _ctx: &mut Ctx) -> String {
-        panic!("unknown op {}", op)
+
+    fn generate(&self, _pid: &str, tier: Tier, rng: &mut Rng, emit: &mut dyn FnMut(String)) {
+        let quick = tier == Tier::Quick;
+        // degenerate objects first
+        for st in ["7 9 1 1", "7 9 128 0", "- 9 3 2", "7 - 0 1", "- - 0 1"] {
+            for sh in [
+                "rect 0 0 0 0", "rect -1024 -1024 1024 1024", "rect 0 0 1024 1024", "circle 0 0 0", "circle 0 0 1", "circle -512 -512 1024",
+                "ellipse 0 0 0 5", "ellipse 0 0 5 0", "ellipse 0 0 1 1024", "ellipse 0 0 1024 1", "ellipse 0 0 320 240", "ellipse -512 -512 1024 1024",
+                "rrect 0 0 0 0 0 0 0 0 0 0 0 0", "rrect 0 0 1024 1024 512 512 512 512 512 512 512 512", "rrect 0 0 10 10 1024 1024 1024 1024 1024 1024 1024 1024",
+                "rrect 0 0 320 240 200 200 0 0 200 200 0 0",
+                "tri 0 0 0 0 0 0", "tri 5 5 5 5 9 9", "tri -1024 -1024 1024 -1024 0 1024", "tri 0 0 10 10 20 20",
+                "line 0 0 0 0", "line -1024 -1024 1024 1024", "line -1024 0 1024 1", "line 0 0 1000 0",
+                "poly 0 0 0", "poly 0 0 1 5 5", "poly 0 0 2 5 5 5 5", "poly 0 0 3 0 0 10 0 0 0", "poly 0 0 4 -1024 -1024 1024 -1024 1024 1024 -1024 1024",
+                "arc 0 0 0 0 90000", "arc 0 0 1024 0 360000", "arc 0 0 1 15000 -720000", "sector 0 0 0 0 90000", "sector -512 -512 1024 -90000 450000", "sector 0 0 2 0 1",
+            ] {
+                emit(format!("scale.shape {} {}", sh, st));
+            }
+        }
+        let n = if quick { 2500 } else { 60_000 };
+        for _ in 0..n {
+            let w = if rng.chance(3, 4) { *rng.pick(&WIDTHS) } else { rng.range(0, 128) };
+            let f = if rng.chance(1, 2) { "7" } else { "-" };
+            let s = if rng.chance(3, 4) { "9" } else { "-" };
+            emit(format!("scale.shape {} {} {} {} {}", scale_shape(rng), f, s, w, rng.below(3)));
+        }
+        // text
+        let strings: [&[u32]; 9] = [&[], &[65], &[10], &[10, 10, 10], &[65, 66, 13, 10, 67], &[0x1F600, 0, 9, 127], &[72, 101, 108, 108, 111, 32, 119, 10, 111, 114, 108, 100], &[32, 32, 32], &[0xE9, 0xFC, 10, 0xDF]];
+        let nt = if quick { 1200 } else { 30_000 };
+        for i in 0..nt {
+            let font = if i % 7 == 0 { "null".to_string() } else { format!("{}", rng.below(4)) };
+            let (lhk, lhv) = match rng.below(3) {
+                0 => (0, 0),
+                1 => (1, *rng.pick(&[0i64, 1, 2, 9, 10, 64, 1023, 1024])),
+                _ => (2, *rng.pick(&[0i64, 1, 50, 100, 150, 399, 400])),
+            };
+            let s = strings[rng.below(strings.len() as u64) as usize];
+            emit(format!(
+                "scale.text {} {} {} {} {} {} {} {} {}",
+                font,
+                rng.below(4),
+                rng.below(3),
+                lhk,
+                lhv,
+                rng.below(16),
+                coord(rng),
+                coord(rng),
+                fmt_list(s.iter())
+            ));
+        }
+        // images
+        let ni = if quick { 600 } else { 10_000 };
+        for _ in 0..ni {
+            let bits = *rng.pick(&[1u32, 2, 4, 8, 16, 24, 32]);
+            let w = *rng.pick(&[0i64, 1, 2, 3, 7, 8, 9, 64, 65]);
+            let h = *rng.pick(&[0i64, 1, 2, 5, 33]);
+            let r = |rng: &mut Rng| rng.range(-3, 70);
+            emit(format!(
+                "scale.image {} {} {} {} {} {} {} {} {} {} {} {} {} {}",
+                bits, rng.below(2), w, h, coord(rng), coord(rng), r(rng), r(rng), r(rng).max(0), r(rng).max(0), r(rng), r(rng), r(rng).max(0), r(rng).max(0)
+            ));
+        }
+        // rejection of out-of-range coordinates / indices
+        let big: [i64; 10] = [-1, 0, 1, 7, 8, 9, 1024, 65536, i32::MAX as i64, i32::MIN as i64];
+        for bits in [1u32, 2, 4, 8, 16, 24, 32] {
+            for order in 0..2 {
+                for x in big {
+                    for y in [-1i64, 0, 2, 3, i32::MAX as i64, i32::MIN as i64] {
+                        emit(format!("scale.reject fb {} {} {} {}", bits, order, x, y));
+                        emit(format!("scale.reject imgpixel {} {} {} {}", bits, order, x, y));
+                    }
+                }
+                for len in [0usize, 1, 2, 3, 4, 5, 8] {
+                    for idx in [0u64, 1, 2, 3, 7, 8, 9, 63, 64, 65, 1 << 20, (1 << 31) - 1, 1 << 31, (1 << 32) - 1, 1 << 32, 1 << 62, (1 << 63) - 1, 1 << 63, u64::MAX / 3, u64::MAX / 2, u64::MAX - 1, u64::MAX] {
+                        emit(format!("scale.reject raw {} {} {} {}", bits, order, len, idx));
+                    }
+                }
+            }
+        }
+        for x in [-5i64, -1, 0, 3, 4, 5, 1024, i32::MAX as i64, i32::MIN as i64] {
+            for y in [-1i64, 0, 2, 3, i32::MIN as i64] {
+                for w in [0i64, 1, 4, 5, 1024, u32::MAX as i64] {
+                    for h in [0i64, 1, 3, 4, u32::MAX as i64] {
+                        emit(format!("scale.reject sub {} {} {} {}", x, y, w, h));
+                    }
+                }
+            }
+        }
+    }
+
+    fn execute(&self, op: &str, ctx: &mut Ctx) -> String {
+        let mut t = Toks::new(op);
+        let stream = t.str();
+        alloc_reset();
+        match stream {
+            "scale.shape" => {
+                let shape = Shape::parse(&mut t);
+                let style = parse_style(&mut t);
+                ctx.count(&format!("shape:{}", shape.kind()));
+                if style.stroke_width >= 64 {
+                    ctx.count("shape:wide-stroke");
+                }
+                let tb = Rectangle::new(Point::new(-1024, -1024), Size::new(2048, 2048));
+                let mut probes = [Point::zero(); 6];
+                let (n, over) = with_shape!(&shape, p => {
+                    let s = Styled::new(p.clone(), style);
+                    let mut d1 = Null::<Rgb565>::new(tb, false);
+                    let mut d2 = Null::<Rgb565>::new(tb, true);
+                    alloc_arm(true);
+                    let bb = s.bounding_box();
+                    let pb = p.bounding_box();
+                    s.draw(&mut d1).unwrap();
+                    s.draw(&mut d2).unwrap();
+                    let mut n = d1.n + d2.n;
+                    let mut over = d1.over || d2.over;
+                    let mut k = 0u64;
+                    for _ in s.pixels() {
+                        k += 1;
+                        if k > 40_000_000 { over = true; break; }
+                    }
+                    n += k;
+                    k = 0;
+                    for _ in p.points() {
+                        k += 1;
+                        if k > 40_000_000 { over = true; break; }
+                    }
+                    n += k;
+                    let moved = s.translate(Point::new(3, -2));
+                    let _ = moved.bounding_box();
+                    alloc_arm(false);
+                    probes = [pb.top_left, pb.center(), bb.top_left, bb.center(), pb.top_left + pb.size, Point::new(0, 0)];
+                    (n, over)
+                });
+                // contains() for the shapes that have it
+                macro_rules! cont {
+                    ($p:expr) => {{
+                        alloc_arm(true);
+                        let mut c = 0;
+                        for q in probes {
+                            if $p.contains(q) {
+                                c += 1;
+                            }
+                        }
+                        alloc_arm(false);
+                        c
+                    }};
+                }
+                let inside = match &shape {
+                    Shape::Rect(p) => cont!(p),
+                    Shape::Circle(p) => cont!(p),
+                    Shape::Ellipse(p) => cont!(p),
+                    Shape::RRect(p) => cont!(p),
+                    Shape::Tri(p) => cont!(p),
+                    Shape::Sector(p) => cont!(p),
+                    _ => 0,
+                };
+                let allocs = alloc_arm(false);
+                if n > 0 {
+                    ctx.nontrivial(op);
+                }
+                ctx.expect(allocs == 0, "C08:heap-allocation", || format!("{} allocation(s) inside library calls", allocs));
+                ctx.expect(!over, "C08:iteration-budget-exceeded", || "more than 4e7 items from one iterator".into());
+                format!("ok n={} in={} alloc={}", n, inside, allocs)
+            }
+            "scale.text" => {
+                let font = t.str();
+                let baseline = [Baseline::Top, Baseline::Bottom, Baseline::Middle, Baseline::Alphabetic][t.usize()];
+                let align = [Alignment::Left, Alignment::Center, Alignment::Right][t.usize()];
+                let lhk = t.u32();
+                let lhv = t.u32();
+                let mask = t.u32();
+                let pos = t.point();
+                let s: String = t.u32_list().into_iter().map(|c| char::from_u32(c).unwrap_or('?')).collect();
+                ctx.count(&format!("text:font-{}", font));
+                let mut b = MonoTextStyleBuilder::<Rgb565>::new();
+                if font != "null" {
+                    b = b.font([&ascii::FONT_4X6, &ascii::FONT_6X10, &ascii::FONT_10X20, &iso_8859_1::FONT_9X18_BOLD][font.parse::<usize>().unwrap()]);
+                }
+                if mask & 1 != 0 {
+                    b = b.text_color(Rgb565::new(1, 2, 3));
+                }
+                if mask & 2 != 0 {
+                    b = b.background_color(Rgb565::new(3, 2, 1));
+                }
+                if mask & 4 != 0 {
+                    b = b.underline();
+                }
+                if mask & 8 != 0 {
+                    b = b.strikethrough_with_color(Rgb565::new(9, 9, 9));
+                }
+                let cs = b.build();
+                let ts = TextStyleBuilder::new()
+                    .baseline(baseline)
+                    .alignment(align)
+                    .line_height(match lhk {
+                        0 => LineHeight::Percent(100),
+                        1 => LineHeight::Pixels(lhv),
+                        _ => LineHeight::Percent(lhv),
+                    })
+                    .build();
+                let text = Text::with_text_style(&s, pos, cs, ts);
+                let tb = Rectangle::new(Point::new(-2048, -2048), Size::new(4096, 4096));
+                let mut d1 = Null::<Rgb565>::new(tb, false);
+                let mut d2 = Null::<Rgb565>::new(tb, true);
+                alloc_arm(true);
+                let bb = text.bounding_box();
+                let n1 = text.draw(&mut d1).unwrap();
+                let n2 = text.draw(&mut d2).unwrap();
+                let moved = text.translate(Point::new(-7, 9));
+                let _ = moved.bounding_box();
+                let allocs = alloc_arm(false);
+                if d1.n > 0 {
+                    ctx.nontrivial(op);
+                }
+                ctx.expect(allocs == 0, "C08:heap-allocation", || format!("{} allocation(s)", allocs));
+                ctx.expect(n1 == n2, "C08:text-next-position-depends-on-target", || format!("{:?} vs {:?}", n1, n2));
+                format!("ok n={} next={},{} bb={} alloc={}", d1.n + d2.n, n1.x, n1.y, fmt_rect(&bb), allocs)
+            }
+            "scale.image" => {
+                let bits = t.u32();
+                let order = t.u32();
+                let size = t.size();
+                let pos = t.point();
+                let sub = t.rect();
+                let sub2 = t.rect();
+                ctx.count(&format!("image:{}bpp", bits));
+                macro_rules! img {
+                    ($c:ty, $o:ty) => {{
+                        let bpr = (size.width as usize * bits as usize + 7) / 8;
+                        let data: Vec<u8> = (0..bpr * size.height as usize).map(|i| (i * 37 + 11) as u8).collect();
+                        let tb = Rectangle::new(Point::new(-2048, -2048), Size::new(4096, 4096));
+                        let mut d1 = Null::<$c>::new(tb, false);
+                        let mut d2 = Null::<$c>::new(tb, true);
+                        alloc_arm(true);
+                        let raw = ImageRaw::<$c, $o>::new(&data, size);
+                        let mut n = 0u64;
+                        let mut some = 0u32;
+                        if let Ok(raw) = raw {
+                            let im = Image::new(&raw, pos);
+                            let _ = im.bounding_box();
+                            im.draw(&mut d1).unwrap();
+                            im.draw(&mut d2).unwrap();
+                            let s1 = raw.sub_image(&sub);
+                            let i1 = Image::new(&s1, pos);
+                            let _ = i1.bounding_box();
+                            i1.draw(&mut d1).unwrap();
+                            i1.draw(&mut d2).unwrap();
+                            let s2 = s1.sub_image(&sub2);
+                            let i2 = Image::with_center(&s2, pos);
+                            let _ = i2.bounding_box();
+                            i2.draw(&mut d1).unwrap();
+                            i2.draw(&mut d2).unwrap();
+                            for q in [Point::new(-1, 0), Point::new(0, -1), Point::zero(), Point::new(size.width as i32, 0), Point::new(0, size.height as i32), Point::new(i32::MAX, i32::MAX), Point::new(i32::MIN, 3), sub.top_left] {
+                                if raw.pixel(q).is_some() {
+                                    some += 1;
+                                }
+                            }
+                            n = d1.n + d2.n;
+                        }
+                        let allocs = alloc_arm(false);
+                        (n, some, allocs, d1.over || d2.over)
+                    }};
+                }
+                let (n, some, allocs, over) = match (bits, order) {
+                    (1, 0) => img!(BinaryColor, LittleEndianMsb0),
+                    (1, _) => img!(BinaryColor, BigEndianLsb0),
+                    (2, 0) => img!(Gray2, LittleEndianMsb0),
+                    (2, _) => img!(Gray2, BigEndianLsb0),
+                    (4, 0) => img!(Gray4, LittleEndianMsb0),
+                    (4, _) => img!(Gray4, BigEndianLsb0),
+                    (8, 0) => img!(Gray8, LittleEndianMsb0),
+                    (8, _) => img!(Gray8, BigEndianLsb0),
+                    (16, 0) => img!(Rgb565, LittleEndianMsb0),
+                    (16, _) => img!(Rgb565, BigEndianLsb0),
+                    (_, 0) => img!(Rgb888, LittleEndianMsb0),
+                    (_, _) => img!(Rgb888, BigEndianLsb0),
+                };
+                if n > 0 {
+                    ctx.nontrivial(op);
+                }
+                ctx.expect(allocs == 0, "C08:heap-allocation", || format!("{} allocation(s)", allocs));
+                ctx.expect(!over, "C08:iteration-budget-exceeded", || "budget".into());
+                format!("ok n={} some={} alloc={}", n, some, allocs)
+            }
+            "scale.reject" => {
+                let kind = t.str();
+                ctx.count(&format!("reject:{}", kind));
+                ctx.nontrivial(op);
+                match kind {
+                    "fb" | "imgpixel" => {
+                        let bits = t.u32();
+                        let order = t.u32();
+                        let p = Point::new(t.i64() as i32, t.i64() as i32);
+                        macro_rules! fb {
+                            ($c:ty, $r:ty, $o:ty, $col:expr) => {{
+                                let mut fb = Framebuffer::<$c, $r, $o, 9, 3, { buffer_size::<$c>(9, 3) }>::new();
+                                let before: Vec<u8> = fb.data().to_vec();
+                                let inside = p.x >= 0 && p.x < 9 && p.y >= 0 && p.y < 3;
+                                if kind == "fb" {
+                                    fb.set_pixel(p, $col);
+                                    let got = fb.pixel(p);
+                                    if !inside {
+                                        ctx.expect(fb.data() == &before[..], "C08:outside-write-changed-bytes", || format!("{:?}", p));
+                                        ctx.expect(got.is_none(), "C08:outside-pixel-not-none", || format!("{:?}", p));
+                                    } else {
+                                        ctx.expect(got == Some($col), "C08:inside-pixel-lost", || format!("{:?}", p));
+                                    }
+                                    format!("ok inside={}", inside as u8)
+                                } else {
+                                    let im = fb.as_image();
+                                    let got = im.pixel(p);
+                                    ctx.expect(got.is_some() == inside, "C08:image-pixel-none-iff-outside", || format!("{:?}", p));
+                                    format!("ok inside={}", inside as u8)
+                                }
+                            }};
+                        }
+                        match (bits, order) {
+                            (1, 0) => fb!(BinaryColor, RawU1, LittleEndianMsb0, BinaryColor::On),
+                            (1, _) => fb!(BinaryColor, RawU1, BigEndianLsb0, BinaryColor::On),
+                            (2, 0) => fb!(Gray2, RawU2, LittleEndianMsb0, Gray2::new(2)),
+                            (2, _) => fb!(Gray2, RawU2, BigEndianLsb0, Gray2::new(2)),
+                            (4, 0) => fb!(Gray4, RawU4, LittleEndianMsb0, Gray4::new(9)),
+                            (4, _) => fb!(Gray4, RawU4, BigEndianLsb0, Gray4::new(9)),
+                            (8, 0) => fb!(Gray8, RawU8, LittleEndianMsb0, Gray8::new(200)),
+                            (8, _) => fb!(Gray8, RawU8, BigEndianLsb0, Gray8::new(200)),
+                            (16, 0) => fb!(Rgb565, RawU16, LittleEndianMsb0, Rgb565::new(1, 2, 3)),
+                            (16, _) => fb!(Rgb565, RawU16, BigEndianLsb0, Rgb565::new(1, 2, 3)),
+                            (_, 0) => fb!(Rgb888, RawU24, LittleEndianMsb0, Rgb888::new(1, 2, 3)),
+                            (_, _) => fb!(Rgb888, RawU24, BigEndianLsb0, Rgb888::new(1, 2, 3)),
+                        }
+                    }
+                    "raw" => {
+                        let bits = t.u32();
+                        let order = t.u32();
+                        let len = t.usize();
+                        let idx = t.u64() as usize;
+                        macro_rules! raw {
+                            ($r:ty, $o:ty) => {{
+                                let mut buf: Vec<u8> = (0..len).map(|i| (i * 29 + 5) as u8).collect();
+                                let before = buf.clone();
+                                let capacity = (len as u128 * 8) / bits as u128;
+                                let inside = (idx as u128) < capacity;
+                                let l = <$r>::load::<$o>(&buf, idx);
+                                let s = <$r>::from_u32(0x5A5A_5A5A).store::<$o>(&mut buf, idx);
+                                ctx.expect(l.is_some() == inside, "C08:load-none-iff-outside", || format!("len {} idx {}", len, idx));
+                                ctx.expect(s.is_ok() == inside, "C08:store-err-iff-outside", || format!("len {} idx {}", len, idx));
+                                if !inside {
+                                    ctx.expect(buf == before, "C08:outside-store-changed-bytes", || format!("len {} idx {}", len, idx));
+                                }
+                                format!("ok inside={}", inside as u8)
+                            }};
+                        }
+                        match (bits, order) {
+                            (1, 0) => raw!(RawU1, LittleEndianMsb0),
+                            (1, _) => raw!(RawU1, BigEndianLsb0),
+                            (2, 0) => raw!(RawU2, LittleEndianMsb0),
+                            (2, _) => raw!(RawU2, BigEndianLsb0),
+                            (4, 0) => raw!(RawU4, LittleEndianMsb0),
+                            (4, _) => raw!(RawU4, BigEndianLsb0),
+                            (8, 0) => raw!(RawU8, LittleEndianMsb0),
+                            (8, _) => raw!(RawU8, BigEndianLsb0),
+                            (16, 0) => raw!(RawU16, LittleEndianMsb0),
+                            (16, _) => raw!(RawU16, BigEndianLsb0),
+                            (24, 0) => raw!(RawU24, LittleEndianMsb0),
+                            (24, _) => raw!(RawU24, BigEndianLsb0),
+                            (_, 0) => raw!(RawU32, LittleEndianMsb0),
+                            (_, _) => raw!(RawU32, BigEndianLsb0),
+                        }
+                    }
+                    "sub" => {
+                        let x = t.i64() as i32;
+                        let y = t.i64() as i32;
+                        let w = t.i64() as u32;
+                        let h = t.i64() as u32;
+                        let data = [0x5Au8; 3];
+                        let raw = ImageRaw::<BinaryColor>::new(&data, Size::new(5, 3)).unwrap();
+                        let area = Rectangle::new(Point::new(x, y), Size::new(w, h));
+                        let tb = Rectangle::new(Point::new(-64, -64), Size::new(128, 128));
+                        let mut d = Null::<BinaryColor>::new(tb, true);
+                        alloc_arm(true);
+                        let s = raw.sub_image(&area);
+                        let bb = s.bounding_box();
+                        Image::new(&s, Point::new(1, 1)).draw(&mut d).unwrap();
+                        let s2 = s.sub_image(&area);
+                        Image::new(&s2, Point::new(1, 1)).draw(&mut d).unwrap();
+                        let allocs = alloc_arm(false);
+                        ctx.expect(allocs == 0, "C08:heap-allocation", || format!("{}", allocs));
+                        ctx.expect(bb.is_zero_sized() || (bb.size.width <= 5 && bb.size.height <= 3), "C08:sub-image-larger-than-parent", || fmt_rect(&bb));
+                        format!("ok bb={} n={}", fmt_rect(&bb), d.n)
+                    }
+                    other => panic!("unknown reject kind {}", other),
+                }
+            }
+            other => panic!("unknown op {}", other),
+        }
     }
 }
